@@ -8,6 +8,8 @@ const INPUTS: &[&str] = &[
     "a|b", "a-b", "a\tb", "a b c", "a/x|b/y", "a/x-b", "a/", "/", "a//", "a/ b", "あ/名 い", "a|b|", "a|", "ab|c", "a/x|b/y/z|c",
     "a\\/b", "a/x\\ y", "\\a", "a/\\", "a|b/x\\", "/|/", "a-b-c/t", "cd", "漢字かな", "a\\\0",
     "ab/x\\/y cd/z", "a/x\\ y b/z", "a/\\\\ b", "a/x\\", "a|b/x\\|y|c/z", "a/x\\-y-b", "a/\\/|b", "a/x/ b//y", "a//|b/ /", "a/x\0|b", "火/名詞\\/固有|星",
+    // characters a "helpful" normalisation might treat specially: BOM, zero-width space, combining mark, 4-byte scalar, CR/LF
+    "\u{feff}ab", "\u{feff}", "a\u{feff}", "\u{200b}a", "e\u{301}", "😀a", "a\r\nb",
 ];
 
 #[derive(Clone, Copy, Debug, PartialEq)]
